@@ -136,7 +136,9 @@ func (f *GlobFilter) Matches(config *domain.FilterConfig, itemName string) bool 
 // matchesPattern checks if a string matches a glob pattern with caching
 func (f *GlobFilter) matchesPattern(s, patternStr string) bool {
 	// caching for perf
-	cacheKey := fmt.Sprintf("%s::%s", s, patternStr)
+	// The key must be injective: a plain separator lets ("a::b", "a*") and ("a", "b::a*") share
+	// an entry, so the name's length is part of it
+	cacheKey := fmt.Sprintf("%d:%s::%s", len(s), s, patternStr)
 
 	f.cacheMu.RLock()
 	if result, exists := f.patternCache[cacheKey]; exists {
